@@ -1178,6 +1178,18 @@ func checkEnv(c envCase) evid.Outcome {
 			return evid.Fail("%s", d)
 		}
 	}
+	// length corruptions: a truncated or extended envelope cannot pass the integrity check of a wrapped 128 bit key
+	for n := 0; n < len(want); n++ {
+		if d := agree(fmt.Sprintf("the envelope truncated to %d bytes", n), c.KEK, want[:n]); d != "" {
+			return evid.Fail("%s", d)
+		}
+	}
+	for extra := 1; extra <= 16; extra++ {
+		long := append(append([]byte{}, want...), c.KEK2[:extra]...)
+		if d := agree(fmt.Sprintf("the envelope followed by %d more bytes", extra), c.KEK, long); d != "" {
+			return evid.Fail("%s", d)
+		}
+	}
 	other := append([]byte{}, c.KEK2...)
 	if bytes.Equal(other, c.KEK) {
 		other[0] ^= 1
